@@ -2,6 +2,8 @@ import Driver.Proto
 import Uft.Model.Symtab
 import Uft.Model.SymFile
 import Uft.Model.Session
+import Uft.Model.DlRecord
+import Uft.Model.ElfSym
 /- C10 driver.  Numbers are hex without prefix; byte strings are hex or `-`; a symbol
    is `addr:size:typecode:namehex`; sections are separated by `|`.
 
@@ -23,6 +25,14 @@ import Uft.Model.Session
      Y <sid> <addr>            find_symtabs           -> sym | -
      L <sid> <time> <addr>     session_find_dlsym     -> sym | -
      Q <tid> <time> <addr>     task_find_sym_addr     -> sid/sym
+   dlrec <fixed 0|1> <stampAtSend 0|1> | ev | ev ...    (record-time dlopen model, Model/DlRecord.lean)
+     IM <namehex> <start> <stop>                      a session map (mcount_sym_info at start-up)
+     LD <namehex> <realhex> <bias> <start> <stop>     the loader maps an object
+     TK <dt> / CL <addr> / EN <w> <fnamehex> / LV <w> <handle> / XC <handle> <start>...
+                                              -> M <namehex>@<bias>... | S <namehex|->...   (messages in
+                                                 the order sent; for every CL the library it is shown in)
+   elfload <off> | <value>:<size>:<info>:<shndx>:<namehex> ...   load_symtab (filter, sort, dedup) -> table
+   elfmerge | <table> | <table>                       merge_symtabs(symtab, dynsymtab) -> table
 -/
 namespace Driver.C10
 open Uft.Symtab Uft.SymFile Uft.Session
@@ -180,8 +190,69 @@ def scenOp (sc : Scen) (op : List String) : Scen :=
     | _, _ => fail
   | _ => fail
 
+/-! ### record-time dlopen model -/
+open Uft.DlRecord in
+def dlrecEv (cfg : Cfg) (st : St) (op : List String) : Option St :=
+  match op with
+  | ["IM", n, a, b] =>
+    match parseChars n, parseHexNat a, parseHexNat b with
+    | some n, some a, some b =>
+      some { st with maps := st.maps ++ [{ name := n, start := a, stop := b, handle := none, live := true }] }
+    | _, _, _ => none
+  | ["LD", n, r, b, s, e] =>
+    match parseChars n, parseChars r, parseHexNat b, parseHexNat s, parseHexNat e with
+    | some n, some r, some b, some s, some e => some (step cfg st (.load n r b s e))
+    | _, _, _, _, _ => none
+  | ["TK", d] => (parseHexNat d).map (fun d => step cfg st (.tick d))
+  | ["CL", a] => (parseHexNat a).map (fun a => step cfg st (.call a))
+  | ["EN", w, f] =>
+    match parseHexNat w, parseChars f with
+    | some w, some f => some (step cfg st (.enter w f))
+    | _, _ => none
+  | ["LV", w, h] =>
+    match parseHexNat w, parseHexNat h with
+    | some w, some h => some (step cfg st (.leave w h))
+    | _, _ => none
+  | "XC" :: h :: gone =>
+    match parseHexNat h, gone.mapM parseHexNat with
+    | some h, some g => some (step cfg st (.close h g))
+    | _, _ => none
+  | _ => none
+
+open Uft.DlRecord in
+def dlrec (fixed atSend : String) (ops : List (List String)) : String :=
+  let cfg : Cfg := { fixed := fixed == "1", stampAtSend := atSend == "1" }
+  let r := ops.foldl (fun (acc : Option St) op => acc.bind (fun st => dlrecEv cfg st op)) (some {})
+  match r with
+  | none => "bad-op"
+  | some st =>
+    let ms := st.msgs.map (fun m => showChars m.name ++ "@" ++ showHex m.bias)
+    let ss := st.recs.map (fun r => match shownIn st.msgs r.time r.addr with
+                                    | some n => showChars n
+                                    | none => "-")
+    "M " ++ " ".intercalate ms ++ " | S " ++ " ".intercalate ss
+
+/-! ### ELF symbol loading -/
+open Uft.ElfSym in
+def parseElfSym (tok : String) : Option ESym :=
+  match tok.splitOn ":" with
+  | [v, s, i, x, n] =>
+    match parseHexNat v, parseHexNat s, parseHexNat i, parseHexNat x, parseChars n with
+    | some v, some s, some i, some x, some n => some { value := v, size := s, info := i, shndx := x, name := n }
+    | _, _, _, _, _ => none
+  | _ => none
+
 def handle (ws : List String) : String :=
   match splitBar ws with
+  | ["dlrec", fixed, atSend] :: ops => dlrec fixed atSend ops
+  | [["elfload", off], syms] =>
+    match parseHexNat off, (if syms = ["-"] then [] else syms).mapM parseElfSym with
+    | some off, some es => showTable (Uft.ElfSym.loadSymtab off es)
+    | _, _ => "bad-op"
+  | [["elfmerge"], l, r] =>
+    match parseTable (if l = ["-"] then [] else l), parseTable (if r = ["-"] then [] else r) with
+    | some l, some r => showTable (Uft.ElfSym.mergeSymtabs l r)
+    | _, _ => "bad-op"
   | [["load", off, text]] =>
     match parseHexNat off, parseChars text with
     | some off, some text => showTable (load off text)
